@@ -787,8 +787,8 @@ class Bin(Factory, Container):
         """
         # trivial case
         if low is None and high is None:
-            bw = self.bin_width()
-            return np.arange(self.low + bw / 2.0, self.high + bw / 2.0, bw)
+            # not np.arange with a float step: its length is not reliable (61 centres for 60 bins)
+            return self.low + (np.arange(len(self.values)) + 0.5) * self.bin_width()
         # catch weird cases
         if low is not None and high is not None:
             if low > high:
